@@ -602,6 +602,25 @@ def rule_raise_exit(model):
                           norm(x.func).split('.')[-1] == 'match_base'
                           for x in fh_nodes),
     }
+    # class names are compared for equality (or membership in a literal
+    # collection): `X.__name__ in names` with a text on the right is a
+    # substring test -- 'Error' in 'KeyError'
+    for x in fh_nodes + [y for g in (mb,) for y in own_nodes(g.node)]:
+        if isinstance(x, ast.Compare) and len(x.ops) == 1 and isinstance(
+                x.ops[0], (ast.In, ast.NotIn)) and any(
+                isinstance(y, ast.Attribute) and y.attr in (
+                    '__name__', '__qualname__')
+                for y in ast.walk(x.left)):
+            rt = x.comparators[0]
+            lit = isinstance(rt, (ast.Tuple, ast.List, ast.Set))
+            r.instance(fh.where, x, 'membership in a literal collection'
+                       if lit else 'MEMBERSHIP IN WHAT MAY BE A TEXT')
+            if not lit:
+                r.finding(fh.where, x, f'`{norm(x)}`: the class name is '
+                          'looked for IN the handler name(s); where a '
+                          'single name (a text) arrives this is a substring '
+                          "test, so a base class called 'Error' matches "
+                          "the handler for 'KeyError'", node=x, ctx=fh)
     for need in ('__name__', "''", 'match_base'):
         if not have[need]:
             r.finding(fh.where, f'handler test lacks {need}', 'handler '
@@ -778,6 +797,54 @@ def rule_handler_table(model):
         'the compiled try / raise tag')
 
 
+def rule_probe_handlers(model):
+    r = RuleResult('C14.R12', 'an exception raised while the body of '
+                   'dtml-in is rendered reaches the enclosing dtml-try as '
+                   'it is: no try statement of the two renderers that has '
+                   'an except clause (the emptiness / next-batch / '
+                   'previous-batch probes, the skip_unauthorized fetch) '
+                   'renders a section in its try body -- an IndexError or '
+                   'KeyError from inside the section would be taken for '
+                   'the answer of the probe')
+    n = 0
+    for q in ('InClass.renderwb', 'InClass.renderwob'):
+        fi = model.func('DT_In', q)
+        ren = {'render_blocks', 'render'}
+        for x in own_nodes(fi.node):
+            if isinstance(x, ast.Assign) and len(x.targets) == 1 and \
+                    isinstance(x.targets[0], ast.Name) and \
+                    norm(x.value) in ren:
+                ren.add(x.targets[0].id)
+        for t in [x for x in own_nodes(fi.node) if isinstance(x, ast.Try)
+                  and x.handlers]:
+            n += 1
+            inside = [c for s_ in t.body for c in ast.walk(s_)
+                      if isinstance(c, ast.Call) and isinstance(
+                          c.func, ast.Name) and c.func.id in ren]
+            swallowing = [h for h in t.handlers if not (
+                h.body and isinstance(h.body[-1], ast.Raise) and
+                h.body[-1].exc is None and len(h.body) == 1)]
+            bad = inside and swallowing
+            r.instance(fi.where, f'try ... except {norm(t.handlers[0].type)}'
+                       if t.handlers[0].type is not None else 'try/except',
+                       'SECTION RENDERED UNDER THE HANDLER' if bad
+                       else 'probe only')
+            if bad:
+                r.finding(fi.where, inside[0], 'a section is rendered '
+                          'inside the try body of '
+                          f'`except {norm(swallowing[0].type)}`: an '
+                          'exception of that type raised by the section is '
+                          'handled as the outcome of the probe (else body '
+                          "or '' instead of the error), so dtml-try "
+                          'around the loop never sees it', node=inside[0],
+                          ctx=fi)
+    if n < 4:
+        raise AnalysisError(f'C14.R12: only {n} try/except statements '
+                            'found in the dtml-in renderers')
+    r.floor = 4
+    return r
+
+
 def rule_handler_order(model):
     r = RuleResult('C14.R11', 'the handler table lists the except clauses '
                    'in source order (the first clause that matches wins, a '
@@ -824,7 +891,8 @@ def rule_handler_order(model):
 
 RULES = [_inl(rule_return), _inl(rule_placement), _inl(rule_raise_exit),
          rule_handler_table, _inl(rule_error_type_name),
-         _inl(rule_return_value_untouched), _inl(rule_handler_order)]
+         _inl(rule_return_value_untouched), _inl(rule_handler_order),
+         _inl(rule_probe_handlers)]
 EXPLANATION = (
     'Who-may-catch analysis: least set of functions that can let DTReturn '
     'out (call graph incl. the block dispatch of render_blocks_), every try '
